@@ -8,6 +8,7 @@ import (
 	"fmt"
 	"os"
 	"path/filepath"
+	"runtime"
 	"runtime/debug"
 	"strings"
 	"sync"
@@ -173,7 +174,7 @@ func Run(c Case) *Obs {
 	o := &Obs{}
 	var res result
 	hangCh := simrt.HangCh()
-	backstop := time.NewTimer(900 * time.Second)
+	backstop := time.NewTimer(backstopDuration())
 	defer backstop.Stop()
 	poll := time.NewTicker(500 * time.Millisecond)
 	defer poll.Stop()
@@ -214,12 +215,20 @@ wait:
 				still = 0
 			}
 			lastTicks = t
+			if still >= 3 && !mainTaskBlockedOnChannel() {
+				// not advancing simulated time, but not parked on a channel either: it is inside uninstrumented code
+				// (file I/O, template execution, a loaded machine) - keep waiting, the backstop bounds it
+				still = 0
+			}
 			if still >= 3 {
 				res = result{outcome: OutDeadlock, diag: fmt.Sprintf("no task advanced simulated time for 3 samples at tick %d and the main task has not finished", t)}
 				break wait
 			}
 		case <-backstop.C:
 			fmt.Fprintln(os.Stderr, "enga: wall-clock backstop expired; harness trouble")
+			fmt.Fprintf(os.Stderr, "mode=%s variant=%s sched=%s ticks=%d text(%d bytes) ends with %q\n", c.Mode, c.Variant, c.Sched, simrt.Ticks(), len(c.Text), c.Text[max0(len(c.Text)-300):])
+			buf := make([]byte, 1<<18)
+			fmt.Fprintf(os.Stderr, "%s\n", buf[:runtime.Stack(buf, true)])
 			os.Exit(2)
 		}
 	}
@@ -259,6 +268,24 @@ wait:
 	return o
 }
 
+// mainTaskBlockedOnChannel inspects the goroutine dump: the main task (the goroutine started by Run) must be
+// parked in a channel operation for a run to be called a deadlock.
+func mainTaskBlockedOnChannel() bool {
+	buf := make([]byte, 1<<20)
+	n := runtime.Stack(buf, true)
+	for _, g := range strings.Split(string(buf[:n]), "\n\n") {
+		if !strings.Contains(g, "enga.Run.func") || !strings.Contains(g, "ParseAndBuild") && !strings.Contains(g, "GenFromString") {
+			continue
+		}
+		head := g
+		if i := strings.Index(g, "\n"); i >= 0 {
+			head = g[:i]
+		}
+		return strings.Contains(head, "[chan receive") || strings.Contains(head, "[chan send") || strings.Contains(head, "[select")
+	}
+	return false
+}
+
 // Schedules
 
 // Canonical is the all-ascending schedule.
@@ -296,4 +323,20 @@ func Swarm(seed uint64, k int, sites []string) Schedule {
 	default:
 		return Schedule{Seed: seed, Default: fmt.Sprintf("rot:%d", 1+r.Intn(7))}
 	}
+}
+
+func max0(x int) int {
+	if x < 0 {
+		return 0
+	}
+	return x
+}
+
+func backstopDuration() time.Duration {
+	if v := os.Getenv("VERIF_BACKSTOP"); v != "" {
+		if d, err := time.ParseDuration(v); err == nil {
+			return d
+		}
+	}
+	return 900 * time.Second
 }
